@@ -4,4 +4,5 @@ CONSTANTS
   ArchSize = 3
   DEV_OccAddsOrientation = FALSE
   DEV_PbWriteTouchesDefaultdict = FALSE
+  DEV_NetworkCopyShallow = FALSE
 INVARIANT Emit
